@@ -1,5 +1,5 @@
 /-
-  C10 lemmas, part 6: the callers' loop `drain`; the statements behind `stash_bounded` and `fuel_suffices`.
+  C10 lemmas, part 6: the callers' loop `drain`; the statements behind `fuel_suffices`.
 -/
 import Echse.Lemmas.Ical5
 namespace Echse.Ical
@@ -28,16 +28,6 @@ theorem drain_buf : ∀ (f : Nat) (p : Parser) (acc : List Instr), (drain f p ac
     have hb := loop_buf pullEv_isLoop evStep_good (p.buf.length + 2) p
     split
     · rw [drain_buf f, hb]
-    · exact hb
-
-theorem drain_stash_lt : ∀ (f : Nat) (p : Parser) (acc : List Instr), p.stash.length < stashSize →
-    (drain f p acc).1.stash.length < stashSize
-  | 0, p, acc, hp => by rw [drain_zero]; exact hp
-  | f+1, p, acc, hp => by
-    rw [drain_succ]
-    have hb := loop_stash_lt pullEv_isLoop evStep_good (p.buf.length + 2) p hp
-    split
-    · exact drain_stash_lt f _ _ hb
     · exact hb
 
 theorem drain_fuel : ∀ (f k : Nat) (p : Parser) (acc : List Instr), mu p < f →
